@@ -59,7 +59,9 @@ SCENARIOS = {
     "q_chain": dict(td=("t1",), tags=(), en=("e1",), k=("k1",), ffis=3, per=1),
     # 64-bit boundary values of constants / enumerators seen through the including FFI
     "q_bigk": dict(td=(), tags=(), en=("e1",), k=("k1",), feat=("bigconst",), ffis=2, per=1),
-    "sanity": dict(td=("t1",), tags=(), en=("e1",), k=(), ffis=2, per=1),
+    # three FFIs (chains A <- B <- C and siblings C includes A and B): constants and variables of A through lib C
+    "q_reach3": dict(td=(), tags=(), en=(), k=("k1",), gv=("g1",), feat=("siblings",), ffis=3, per=1),
+    "sanity": dict(td=(), tags=(), en=("e1",), k=("k1",), ffis=3, per=1),
     # thorough
     "pair_en": dict(td=("t1",), tags=("s1",), en=("e1",), k=(), ffis=2, per=2),
     "chain3b": dict(td=("t1",), tags=("s1",), en=("e1",), k=(), ffis=3, per=1),
@@ -68,39 +70,56 @@ SCENARIOS = {
 
 
 def split(beh):
-    segs = [[]]
+    """the declarations of every FFI and, per FFI, the (0-based) FFIs it includes, in include() order"""
+    segs, incs = [[]], [[]]
     for a in beh:
         if a["a"] == "NewFFI":
             segs.append([])
+            incs.append([i - 1 for i in a["inc"]])
         else:
             segs[-1].append(a)
-    return segs
+    return segs, incs
+
+
+def ancestors(incs, j):
+    """FFIs reachable from j through include(), j excluded, in index order"""
+    seen, todo = set(), list(incs[j])
+    while todo:
+        i = todo.pop()
+        if i not in seen:
+            seen.add(i)
+            todo += incs[i]
+    return sorted(seen)
 
 
 def hist_to_beh(hist):
     out = []
     for h in hist:
-        out.append({"a": "NewFFI"} if h[0] == "NewFFI" else mg.action(h[0], h[1]))
+        out.append({"a": "NewFFI", "inc": list(h[1][0])} if h[0] == "NewFFI" else mg.action(h[0], h[1]))
     return out
 
 
 # --------------------------------------------------------------------------- building a chain in one mode
 
-def own_items(segs):
-    """per segment: the items first declared there"""
-    seen_su = set()
+def own_items(segs, incs):
+    """per FFI: the items declared there (not already visible through its includes)"""
     out = []
-    for seg in segs:
+    su_of = []
+    for j, seg in enumerate(segs):
         nm = mg.names_of(seg)
-        su = [k for k in nm.su if k not in seen_su]
-        seen_su.update(su)
+        visible = set()
+        for i in ancestors(incs, j):
+            visible.update(su_of[i])
+        su = [k for k in nm.su if k not in visible]
+        su_of.append(set(su))
         out.append({"td": list(nm.td), "su": su, "en": list(nm.en), "k": list(nm.k), "fn": list(nm.fn), "gv": list(nm.gv),
-                    "kc": [a["n"] for a in seg if a["a"] == "DeclConst"]})
+                    "kc": [a["n"] for a in seg if a["a"] == "DeclConst"],
+                    "intgv": [a["n"] for a in seg if a["a"] == "DeclGlobal" and ma.prim_is_int(a["t"]) and a["t"][1] not in ("char", "wchar_t", "_Bool")]})
     return out
 
 
-def observe_chain(F, L, segs, mode):
-    items = own_items(segs)
+def observe_chain(F, L, segs, incs, mode):
+    items = own_items(segs, incs)
     n = len(F)
     same, kk, lay, reach = {}, {}, {}, {}
 
@@ -115,8 +134,42 @@ def observe_chain(F, L, segs, mode):
         for a in seg:
             if a["a"] == "DeclStruct":
                 complete[(a["kind"], a["tag"])] = True
-    for j in range(n):
-        for i in range(j):
+    # API mode first of all: every name of every included lib is asked through the *last* libs first,
+    # before any intermediate lib has been touched (a lib caches what was once found through it)
+    if mode == "api":
+        through = {}
+        for j in range(n - 1, -1, -1):
+            for i in ancestors(incs, j):
+                for x in items[i]["fn"] + items[i]["gv"] + items[i]["kc"]:
+                    def first(x=x, i=i):
+                        if x in items[i]["kc"]:
+                            return ("k", getattr(L[j], x))
+                        a = F[j].addressof(L[j], x)
+                        return ("a", a, int(F[j].cast("uintptr_t", a)), F[j].typeof(a))
+                    through[(j, i, x)] = mg.guarded(first, "str")
+        for (j, i, x), got in through.items():
+            kind = "fn" if x in items[i]["fn"] else "gv" if x in items[i]["gv"] else "k"
+
+            def r(got=got, j=j, i=i, x=x, kind=kind):
+                if isinstance(got, str):
+                    return got                                   # "error:AttributeError" ...
+                if kind == "k":
+                    return "ok" if got[1] == getattr(L[i], x) else "different value"
+                b = F[i].addressof(L[i], x)
+                if got[2] != int(F[i].cast("uintptr_t", b)):
+                    return "different address"
+                if got[3] is not F[i].typeof(b):
+                    return "different type object"
+                if x in items[i]["intgv"]:
+                    v = 17 + 3 * j + i
+                    setattr(L[j], x, v)                          # written through the including lib ...
+                    if getattr(L[i], x) != v:                    # ... read through the lib that defines it
+                        return "write through lib[%d] not seen by lib[%d]" % (j + 1, i + 1)
+                return "ok"
+            reach["%d:%d:%s:%s" % (j + 1, i + 1, kind, x)] = mg.guarded(r, "str")
+    for j in range(n - 1, -1, -1):
+        anc = ancestors(incs, j)
+        for i in anc:
             it = items[i]
             for t in it["td"]:
                 same["%d:%d:td:%s" % (j + 1, i + 1, t)] = is_same(j, i, t)
@@ -129,57 +182,40 @@ def observe_chain(F, L, segs, mode):
                     lay["%d:%s" % (j + 1, ks)] = mg.guarded(lambda: mg.agg_obs(F[j], F[j].typeof(ks)), "rec")
             for e in it["en"]:
                 same["%d:%d:en:%s" % (j + 1, i + 1, e)] = is_same(j, i, "enum " + e)
-        for i in range(j + 1):
+        for i in anc + [j]:
             for c in items[i]["k"]:
                 def val(c=c):
                     if mode == "ool":
                         return str(int(F[j].integer_const(c)))
                     return str(int(getattr(L[j], c)))
                 kk["%d:%s" % (j + 1, c)] = mg.guarded(val, "str")
-        if mode == "api":
-            for i in range(j):
-                for f in items[i]["fn"] + items[i]["gv"]:
-                    kind = "fn" if f in items[i]["fn"] else "gv"
-
-                    def r(f=f):
-                        a = F[j].addressof(L[j], f)
-                        b = F[i].addressof(L[i], f)
-                        if int(F[j].cast("uintptr_t", a)) != int(F[i].cast("uintptr_t", b)):
-                            return "different address"
-                        if F[j].typeof(a) is not F[i].typeof(b):
-                            return "different type object"
-                        return "ok"
-                    reach["%d:%d:%s:%s" % (j + 1, i + 1, kind, f)] = mg.guarded(r, "str")
-                for c in items[i]["kc"]:
-                    reach["%d:%d:k:%s" % (j + 1, i + 1, c)] = mg.guarded(
-                        lambda c=c: "ok" if getattr(L[j], c) == getattr(L[i], c) else "different value", "str")
     return {"same": same, "k": kk, "lay": lay, "reach": reach, "err": ""}
 
 
-def build_inline(segs, libpath):
+def build_inline(segs, incs, libpath):
     import cffi
     F, L = [], []
     for k, seg in enumerate(segs):
         f = cffi.FFI()
-        if k:
-            f.include(F[k - 1])
+        for i in incs[k]:
+            f.include(F[i])
         f.cdef(mg.render_cdef(seg))
         F.append(f)
         L.append(f.dlopen(libpath))
     return F, L
 
 
-def build_generated(segs, workdir, tag, api):
+def build_generated(segs, incs, workdir, tag, api):
     import cffi
     builders, names = [], []
-    prior = []
     for k, seg in enumerate(segs):
         f = cffi.FFI()
-        if k:
-            f.include(builders[k - 1])
+        for i in incs[k]:
+            f.include(builders[i])
         f.cdef(mg.render_cdef(seg))
         name = "m_c34_%s_%d" % (tag, k)
         if api:
+            prior = [a for i in ancestors(incs, k) for a in segs[i]]
             f.set_source(name, ma.render_csource(seg, prior))
             ma.build_api(core, f, name, workdir)
         else:
@@ -187,10 +223,12 @@ def build_generated(segs, workdir, tag, api):
             f.emit_python_code(os.path.join(workdir, name + ".py"))
         builders.append(f)
         names.append(name)
-        prior = prior + seg
-    mods = [ma.import_from(workdir, nm) for nm in names]
-    F = [m.ffi for m in mods]
-    L = [m.lib if api else None for m in mods]
+    # import the last modules first (they import what they include)
+    mods = {}
+    for k in range(len(names) - 1, -1, -1):
+        mods[k] = ma.import_from(workdir, names[k])
+    F = [mods[k].ffi for k in range(len(names))]
+    L = [mods[k].lib if api else None for k in range(len(names))]
     return F, L
 
 
@@ -198,15 +236,15 @@ def run_case(arg):
     idx, beh, libpath, workdir, modes = arg
     warnings.simplefilter("ignore")
     with contextlib.redirect_stdout(io.StringIO()):
-        segs = split(beh)
+        segs, incs = split(beh)
         rec = {"id": idx, "beh": beh, "obs": {}}
         for mode in modes:
             try:
                 if mode == "inl":
-                    F, L = build_inline(segs, libpath)
+                    F, L = build_inline(segs, incs, libpath)
                 else:
-                    F, L = build_generated(segs, workdir, "%d_%d_%s" % (os.getpid(), idx, mode), mode == "api")
-                rec["obs"][mode] = observe_chain(F, L, segs, mode)
+                    F, L = build_generated(segs, incs, workdir, "%d_%d_%s" % (os.getpid(), idx, mode), mode == "api")
+                rec["obs"][mode] = observe_chain(F, L, segs, incs, mode)
             except Exception as e:
                 rec["obs"][mode] = {"same": {}, "k": {}, "lay": {}, "reach": {}, "err": "%s: %s" % (type(e).__name__, str(e)[:300])}
         return rec
@@ -249,7 +287,9 @@ def validate(ctx, recs, name="Trace_CdefInc"):
 
 
 def render_chain(beh):
-    return "\n--- next FFI (includes the previous one) ---\n".join(mg.render_cdef(s) for s in split(beh))
+    segs, incs = split(beh)
+    return "\n".join("--- FFI %d (includes %s) ---\n%s" % (k + 1, [i + 1 for i in incs[k]] or "nothing", mg.render_cdef(sg))
+                     for k, sg in enumerate(segs))
 
 
 def judge(ctx, recs, verdicts, origin):
@@ -278,7 +318,7 @@ def random_chain(rng, nffi, per):
     beh = []
     for k in range(nffi):
         if k:
-            beh.append({"a": "NewFFI"})
+            beh.append({"a": "NewFFI", "inc": [k]})
             g.frozen = set(g.su)
         start = len(g.beh)
         tries = 0
@@ -293,7 +333,7 @@ def run(ctx):
     quick = ctx.quick
     jobs = int(os.environ.get("VERIF_JOBS", "8"))
     libpath = mg.build_pool_lib(core, ctx.tmp)
-    scen = ["q_pair", "q_fn", "q_chain", "q_bigk"] if quick else ["q_pair", "q_fn", "q_chain", "q_bigk", "pair_en", "chain3b", "pair_k"]
+    scen = ["q_pair", "q_fn", "q_chain", "q_reach3", "q_bigk"] if quick else ["q_pair", "q_fn", "q_chain", "q_reach3", "q_bigk", "pair_en", "chain3b", "pair_k"]
 
     def tlc_job(name):
         r = core.tlc("CdefInc", cfg_text=cfg(emit=True, **SCENARIOS[name]), workers=1, timeout=1700)
@@ -301,7 +341,7 @@ def run(ctx):
         return name, r, [hist_to_beh(tlaval.parse_value(h)) for h in hs]
 
     def sanity_job():
-        return core.tlc("CdefInc", cfg_text=cfg(probe=True, variants=("faithful", "strict"), **SCENARIOS["sanity"]),
+        return core.tlc("CdefInc", cfg_text=cfg(probe=True, variants=("faithful", "strict", "one-level"), **SCENARIOS["sanity"]),
                         workers=1, timeout=900)
 
     chains = []
@@ -316,10 +356,14 @@ def run(ctx):
             chains += [b for b in behs if any(a["a"] == "NewFFI" for a in b) and b[-1]["a"] != "NewFFI"]
         r = fs.result()
         ctx.add_tlc("sanity(strict: enum identity)", r, count_states=False)
-        caught = [t for t in tuples(r.out, "CAUGHT")]
-        if not caught or '"en"' not in caught[0][1]:
+        caught = {}
+        for t in tuples(r.out, "CAUGHT"):
+            caught.setdefault(core.unq(t[0]), t[1])
+        if '"en"' not in caught.get("strict", ""):
             raise core.MachineryError("strict run does not show the enum identity divergence")
-        ctx.cov["variants_caught"] = {"strict": caught[0][1][:200]}
+        if '"reach"' not in caught.get("one-level", ""):
+            raise core.MachineryError("variant 'one-level' (included libs' own includes never searched) was not rejected by TLC")
+        ctx.cov["variants_caught"] = {v: caught[v][:200] for v in caught}
 
     # ---------------------------------------------------------------- spec -> code
     seen, sel = set(), []
@@ -334,8 +378,12 @@ def run(ctx):
     sel = sel[:n_all]
     # API mode (gcc) for a sample; prefer chains that declare functions / variables / constants
     def api_score(b):
+        # chains of three FFIs whose first FFIs define functions / variables / constants come first
         kinds = {a["a"] for a in b}
-        return -len(kinds & {"DeclFunc", "DeclGlobal", "DeclConst", "DeclEnum", "DeclStruct"})
+        nffi = 1 + sum(1 for a in b if a["a"] == "NewFFI")
+        first = {a["a"] for a in split(b)[0][0]}
+        return (-(nffi >= 3 and bool(first & {"DeclFunc", "DeclGlobal", "DeclConst"})),
+                -len(kinds & {"DeclFunc", "DeclGlobal", "DeclConst", "DeclEnum", "DeclStruct"}))
     api_idx = set(sorted(range(len(sel)), key=lambda i: (api_score(sel[i]), i))[:n_api])
     work = [(b, ("inl", "ool", "api") if i in api_idx else ("inl", "ool")) for i, b in enumerate(sel)]
     nrand = 9 if quick else 100
@@ -389,7 +437,7 @@ def selftest(ctx):
     libpath = mg.build_pool_lib(core, ctx.tmp)
     os.makedirs(os.path.join(ctx.tmp, "mods"), exist_ok=True)
     beh = [mg.action("DeclStruct", ("struct", "s1", (("a", ("prim", "int"), -1),))),
-           mg.action("DeclConst", ("define", "k1", "7")), {"a": "NewFFI"},
+           mg.action("DeclConst", ("define", "k1", "7")), {"a": "NewFFI", "inc": [1]},
            mg.action("DeclTypedef", ("t1", ("ptr", ("struct", "s1"))))]
     rec = run_case((1, beh, libpath, os.path.join(ctx.tmp, "mods"), ("inl", "ool")))
     v = validate(ctx, [rec])
